@@ -251,6 +251,29 @@ def run_derivatives(ctx: Ctx) -> None:
             return True, ""
         _guard(ctx, "T5.batch-spacing", f"D={D}:unordered rows", fS, f"D={D} per-batch spacing rows not in ascending order", thb2)
 
+        def thb3(D=D, shape=shape):
+            # batch size equal to the number of spatial dimensions: a 1-D spacing is per *axis* (documented), not per image
+            reset_relations()
+            facts = fresh_facts()
+            it = make_interp(ctx)
+            h = [Rat.atom(f"h{j}") for j in range(D)]
+            for x in h:
+                facts.declare_positive(x)
+            ones = [Rat.of(1)] * D
+            u, coef = poly_field(D, shape, ones, 1, "", N=D)
+            for form, sp in (("tuple", tuple(h)), ("1-D tensor", STensor.from_flat(h, [D])), ("list", list(h))):
+                d = it.call(F_["flow_derivatives"], u, order=1, mode="forward_central_backward", spacing=sp)
+                for c in range(D):
+                    for j in range(D):
+                        t = d[f"d{CH[c]}/d{LETTERS[j]}"]
+                        for n in range(D):
+                            bad = all_equal(t[n:n + 1], coef["A"][c][j] * (n + 1) / h[j])
+                            if bad:
+                                return False, (f"N = D = {D}, per-axis spacing given as {form}: item {n}, d{CH[c]}/d{LETTERS[j]} is not divided "
+                                               f"by the spacing of axis {LETTERS[j]}: {bad}")
+            return True, ""
+        _guard(ctx, "T5.batch-spacing", f"D={D}:N=D per-axis spacing", fS, f"D={D} batch size N = D with a 1-D per-axis spacing", thb3)
+
         # bspline mode
         for stride in (1, 2, (2, 3) if D == 2 else (3, 1, 2)):  # scalar and per-axis (sx, sy, ...) strides
             def ths(D=D, stride=stride):
@@ -422,3 +445,85 @@ def run_flowfields_curl(ctx: Ctx) -> None:
                     return False, "FlowField.curl() differs from FlowFields.curl()[0]"
                 return True, ""
             _guard(ctx, "T5.flowfields-curl", f"D={D}:{axes}", fC, f"FlowFields.curl D={D} axes={axes}", th)
+
+
+def run_dtype(ctx: Ctx) -> None:
+    """Derivatives of float64 fields are computed in float64 (dtype flow: no narrowing cast, no narrower intermediate)."""
+    prog = ctx.prog
+    fS = prog.func("deepali.core.image", "spatial_derivatives")
+    F_ = {n: prog.func("deepali.core.flow", n) for n in ("lie_bracket", "jacobian_det", "divergence", "curl")}
+    ctx.fn(prog.func("deepali.core.image", "finite_differences"))
+    ctx.fn(prog.func("deepali.core.image", "conv1d"))
+    ctx.rule("T5.dtype", "spatial_derivatives (every mode: forward, backward, central, forward_central_backward, prewitt, sobel, gaussian, bspline), "
+                         "jacobian_det, divergence, curl and lie_bracket of a float64 field: the result is float64 and no dimensioned tensor is "
+                         "cast to, or computed in, a narrower float type on the way (events of the dtype-tracking interpreter)")
+    modes = ("forward", "backward", "central", "forward_central_backward", "prewitt", "sobel", "gaussian", "bspline")
+    for mode in modes:
+        def th(mode=mode):
+            reset_relations()
+            facts = fresh_facts()
+            it = make_interp(ctx)
+            D = 2
+            shape = (5, 6)
+            u0, _ = poly_field(D, shape, [Rat.of(1)] * D, 1, "", N=1)
+            u = STensor(list(u0.flat()), list(range(u0.numel())), list(u0.shape), symt.DOUBLE)
+            kw = {"mode": mode}
+            if mode == "gaussian":
+                kw["sigma"] = Fraction(7, 10)
+            del symt.PRECISION_EVENTS[:]
+            d = it.call(fS, u.clone(), order=1, **kw)
+            for key, t in d.items():
+                if t.dtype.name != "float64":
+                    return False, f"mode={mode}: derivative {key} of a float64 field has dtype {t.dtype.name}"
+            if symt.PRECISION_EVENTS:
+                return False, f"mode={mode}: {symt.PRECISION_EVENTS[0][0]} inside spatial_derivatives of a float64 field ({len(symt.PRECISION_EVENTS)} events)"
+            if mode in ("central", "gaussian", "forward_central_backward"):
+                for name, f in F_.items():
+                    del symt.PRECISION_EVENTS[:]
+                    args = [u.clone(), u.clone().mul(2)] if name == "lie_bracket" else [u.clone()]
+                    r = it.call(f, *args, **kw)
+                    if r.dtype.name != "float64" or symt.PRECISION_EVENTS:
+                        why = symt.PRECISION_EVENTS[0][0] if symt.PRECISION_EVENTS else f"result dtype {r.dtype.name}"
+                        return False, f"{name}(mode={mode}) of float64 fields: {why}"
+            return True, ""
+        _guard(ctx, "T5.dtype", f"mode={mode}", fS, f"float64 field mode={mode}", th)
+
+
+def run_gaussian_spacing(ctx: Ctx) -> None:
+    """Derivative-of-Gaussian mode: the kernel values are not decided, but the scaling by the grid spacing is."""
+    prog = ctx.prog
+    fS = prog.func("deepali.core.image", "spatial_derivatives")
+    fL = prog.func("deepali.core.flow", "lie_bracket")
+    ctx.rule("T5.gaussian-spacing", "mode='gaussian': each first derivative computed with per-axis spacing (h_x, h_y[, h_z]) equals the same derivative "
+                                    "computed with unit spacing divided by the spacing of *its own* axis, second derivatives by the product of the "
+                                    "two axes' spacings (symbolic field and spacing; the Gaussian kernel entries stay opaque exp-atoms), and per-image "
+                                    "(N, D) spacing rows scale their own image")
+    for D, shape in ((2, (4, 5)), (3, (3, 4, 5))):
+        def th(D=D, shape=shape):
+            reset_relations()
+            facts = fresh_facts()
+            it = make_interp(ctx)
+            h = [Rat.atom(f"h{j}") for j in range(D)]
+            for x in h:
+                facts.declare_positive(x)
+            u = STensor.symbols("u", [2, 1] + list(shape))
+            sig = Fraction(7, 10)
+            unit = dict(it.call(fS, u.clone(), mode="gaussian", sigma=sig, order=1, spacing=1))
+            sp = dict(it.call(fS, u.clone(), mode="gaussian", sigma=sig, order=1, spacing=tuple(h)))
+            if D == 2:
+                unit.update(it.call(fS, u.clone(), mode="gaussian", sigma=sig, order=2, spacing=1))
+                sp.update(it.call(fS, u.clone(), mode="gaussian", sigma=sig, order=2, spacing=tuple(h)))
+            rows = STensor.from_nested([h, [x * 2 for x in h]])
+            spn = it.call(fS, u.clone(), mode="gaussian", sigma=sig, order=1, spacing=rows)
+            for key, t in sp.items():
+                den = Rat.of(1)
+                for ch in key:
+                    den = den * h[LETTERS.index(ch)]
+                if not teq(t, unit[key].div(den)):
+                    return False, f"gaussian derivative '{key}' with spacing (h_x, h_y, ...) is not the unit-spacing derivative divided by {den}"
+            for key, t in spn.items():
+                j = LETTERS.index(key)
+                if not teq(t[0:1], unit[key][0:1].div(h[j])) or not teq(t[1:2], unit[key][1:2].div(h[j] * 2)):
+                    return False, f"gaussian derivative '{key}' with per-image spacing rows is not divided by each image's own spacing of axis {key}"
+            return True, ""
+        _guard(ctx, "T5.gaussian-spacing", f"D={D}", fS, f"gaussian mode spacing D={D}", th)
